@@ -50,7 +50,62 @@ def run_one(entry, props, tier="quick"):
         shutil.rmtree(scratch, ignore_errors=True)
 
 
+def run_seed(seed_dir, props, tier="quick"):
+    """Applies seeded/<id>/patch.diff in a scratch worktree and runs the listed properties' checks."""
+    sid = os.path.basename(seed_dir)
+    scratch = tempfile.mkdtemp(prefix="verif_selftest_", dir="/tmp")
+    repo = os.path.join(scratch, "repo")
+    try:
+        subprocess.run(["git", "-C", "/repo", "worktree", "add", "-q", "--detach", repo, "HEAD"], check=True, capture_output=True)
+        r = subprocess.run(["git", "-C", repo, "apply", "--whitespace=nowarn", os.path.join(seed_dir, "patch.diff")],
+                           capture_output=True, text=True)
+        if r.returncode != 0:
+            return sid, {"stale": True, "count": 0}
+        env = dict(os.environ, EMBOSS_REPO=repo, VERIF_EVIDENCE_DIR=os.path.join(scratch, "ev"),
+                   VERIF_REPLAY_DIR=os.path.join(scratch, "rp"))
+        out = {}
+        for p in props:
+            pr = subprocess.run([os.path.join(VERIF, "check"), p, "--tier", tier], env=env, cwd=VERIF,
+                                capture_output=True, text=True)
+            keys = []
+            rp = os.path.join(scratch, "rp", f"{p}.{tier}.json")
+            if os.path.exists(rp):
+                keys = [f["key"] for f in json.load(open(rp))]
+            out[p] = {"rc": pr.returncode, "keys": keys[:5], "errors": []}
+        return sid, out
+    finally:
+        subprocess.run(["git", "-C", "/repo", "worktree", "remove", "--force", repo], capture_output=True)
+        shutil.rmtree(scratch, ignore_errors=True)
+
+
+def main_seeds(jobs):
+    """Every kept seeded change must still make the check of its property exit 1."""
+    root = os.path.join(VERIF, "seeded")
+    ok = True
+    with cf.ThreadPoolExecutor(max_workers=jobs) as ex:
+        futs = {}
+        for d in sorted(os.listdir(root)):
+            meta = os.path.join(root, d, "meta.json")
+            if not os.path.exists(meta):
+                continue
+            prop = json.load(open(meta))["property"]
+            futs[ex.submit(run_seed, os.path.join(root, d), [prop])] = (d, prop)
+        for fu in cf.as_completed(futs):
+            d, prop = futs[fu]
+            sid, out = fu.result()
+            if out.get("stale"):
+                print(f"STALE   seed {d}: patch no longer applies to /repo HEAD")
+                continue
+            rc = out[prop]["rc"]
+            print(f"{'CAUGHT ' if rc == 1 else 'MISSED '} seed {d}: {prop} rc={rc} {out[prop]['keys'][:2]}")
+            ok = ok and rc == 1
+    subprocess.run(["git", "-C", "/repo", "worktree", "prune"], capture_output=True)
+    return 0 if ok else 1
+
+
 def main():
+    if "--seeds" in sys.argv:
+        return main_seeds(12)
     ap = argparse.ArgumentParser()
     ap.add_argument("--only", default="")
     ap.add_argument("--all-props", action="store_true")
